@@ -62,14 +62,15 @@ def truthy : Option Str → Bool
   | some v => v != "b:False".toList && v != "s:".toList
 
 /-- a wrapper that forwards everything and guards `store` / `store_metadata` by a predicate on the
-metadata; `store` first removes the key (whether or not it then stores) -/
+metadata; `store` first removes the key (whether or not it then stores); a refused `store_metadata` removes the key too
+(an older progress record must not survive the record that was refused) -/
 def guardOps {α : Type} (p : CMeta → Bool) (A : CacheOps α) : CacheOps α where
   get := A.get
   getMeta := A.getMeta
   store s st :=
     let (a0, _) := A.remove s st.metadata.query
     if p st.metadata then A.store a0 st else (a0, .false)
-  storeMeta s m := if p m then A.storeMeta s m else (s, false)
+  storeMeta s m := if p m then A.storeMeta s m else ((A.remove s m.query).1, false)
   remove := A.remove
   contains := A.contains
   keys := A.keys
